@@ -174,7 +174,7 @@ structure St where
   log : List Obs
   /-- ghost: the numbers of the messages accepted on `pub_q`, in order -/
   enq : List Nat
-  deriving Repr
+  deriving DecidableEq, Repr
 
 def init (cfgs : List Cfg) : St :=
   let c := cfgs.headD default
@@ -322,11 +322,19 @@ def enqueue (st : St) : Inp → St
               enq := st.enq ++ [st.nextId], nextId := st.nextId + 1 }
   | .cmd c => if st.term then st else { st with cmds := st.cmds ++ [c] }
 
-def act (v : Variants) (st : St) : Step → St
-  | .burst is => is.foldl enqueue st
-  | .ev x => brokerEvent st x
-  | .mode m => { st with mode := m }
-  | .tick => tick v st
+/-- After `Terminate` the run loop has returned and the event-loop task is aborted: nothing moves;
+messages still handed to `direct_update` fail on the closed queue (they keep their numbers). -/
+def act (v : Variants) (st : St) (s : Step) : St :=
+  if st.term then
+    match s with
+    | .burst is => is.foldl enqueue st
+    | _ => st
+  else
+    match s with
+    | .burst is => is.foldl enqueue st
+    | .ev x => brokerEvent st x
+    | .mode m => { st with mode := m }
+    | .tick => tick v st
 
 def step (v : Variants) (st : St) (s : Step) : St :=
   let st := settle v (act v st s)
@@ -369,6 +377,26 @@ def accepted : List Obs → List Nat
   | .publish _ m _ .ok :: l => m.id :: accepted l
   | .done id :: l => id :: accepted l
   | _ :: l => accepted l
+
+/-- Publishes that did not return at once, in order. -/
+def pendingIds : List Obs → List Nat
+  | [] => []
+  | .publish _ m _ .pending :: l => m.id :: pendingIds l
+  | _ :: l => pendingIds l
+
+/-- Pending publishes that returned or were cancelled, in order. -/
+def completedIds : List Obs → List Nat
+  | [] => []
+  | .done id :: l => id :: completedIds l
+  | .cancel id :: l => id :: completedIds l
+  | _ :: l => completedIds l
+
+/-- A step during which the broker accepts every publish and nobody terminates the target. -/
+def healthy : Step → Bool
+  | .mode .accept => true
+  | .mode _ => false
+  | .burst is => is.all (fun i => i != .cmd .term)
+  | _ => true
 
 /-- No `publish` on a connection after its `disconnect`: `none` if violated, else the disconnected ones. -/
 def discCheck (acc : Option (List Nat)) (o : Obs) : Option (List Nat) :=
